@@ -92,11 +92,41 @@ func c09r1(c *Ctx) {
 			}
 		}
 	}
-	signs := signCallsIn(fn)
+	// signing calls in the handler itself, or in a helper of the package it calls (second half of the handler extracted
+	// into a method): then the helper's call site must lie under the edges, and nobody else may call the helper
+	type signSite struct {
+		call ssa.CallInstruction
+		at   *ssa.BasicBlock // block in fn that decides it
+	}
+	var signs []signSite
+	for _, s := range signCallsIn(fn) {
+		signs = append(signs, signSite{s, s.Block()})
+	}
+	for _, h := range helperCalls(fn) {
+		inner := signCallsIn(h.callee)
+		if len(inner) == 0 {
+			continue
+		}
+		for _, s := range inner {
+			signs = append(signs, signSite{s, h.site.Block()})
+		}
+		others := 0
+		for _, g := range p.AllFuncs {
+			if g == fn || strings.HasSuffix(p.Fset.Position(g.Pos()).Filename, "_test.go") {
+				continue
+			}
+			eachInstr(g, func(ins ssa.Instruction) {
+				if ci, ok := ins.(ssa.CallInstruction); ok && ci.Common().StaticCallee() == h.callee {
+					others++
+				}
+			})
+		}
+		c.Check("signing helper "+h.callee.Name()+" is called only by the authenticated handler", h.callee.Pos(), others == 0, "a function that signs certificates is reachable from a caller that did not authenticate")
+	}
 	c.Check("CreateCertificate signs", fn.Pos(), len(signs) >= 2, "expected Sign and SignWithCertChain calls")
 	for _, s := range signs {
-		c.Check("signing call under caller != nil: "+s.Common().Method.Name(), s.Pos(), underEdges(fn, s.Block(), callerOK), "a certificate can be signed on a path where Authenticate returned no caller")
-		c.Check("signing call under authenticate err == nil: "+s.Common().Method.Name(), s.Pos(), underEdges(fn, s.Block(), errOK), "a certificate can be signed on a path where Authenticate returned an error")
+		c.Check("signing call under caller != nil: "+s.call.Common().Method.Name(), s.call.Pos(), underEdges(fn, s.at, callerOK), "a certificate can be signed on a path where Authenticate returned no caller")
+		c.Check("signing call under authenticate err == nil: "+s.call.Common().Method.Name(), s.call.Pos(), underEdges(fn, s.at, errOK), "a certificate can be signed on a path where Authenticate returned an error")
 	}
 	c.Floor(6)
 }
@@ -121,9 +151,33 @@ func c09r2(c *Ctx) {
 	}
 	c.Check("impersonation gate present", fn.Pos(), len(impOK) == 1, "expected one nil test of authenticateImpersonation's error")
 	n := 0
+	// values stored into SubjectIDs: in the handler, or in a helper it calls with the value as an argument
+	var stored []ssa.Value
 	for _, st := range storesTo(fn, subj) {
+		stored = append(stored, st.Val)
+	}
+	for _, h := range helperCalls(fn) {
+		for _, st := range storesTo(h.callee, subj) {
+			var ls []ssa.Value
+			phiLeaves(st.Val, map[ssa.Value]bool{}, &ls)
+			for _, l := range ls {
+				prm, ok := l.(*ssa.Parameter)
+				if !ok {
+					n++
+					c.Check("SubjectIDs source in helper "+h.callee.Name()+" is a parameter", st.Pos(), false, "a helper of the signing handler stores something other than what the handler passed in into CertOpts.SubjectIDs")
+					continue
+				}
+				for k, fp := range h.callee.Params {
+					if fp == prm && k < len(h.site.Common().Args) {
+						stored = append(stored, h.site.Common().Args[k])
+					}
+				}
+			}
+		}
+	}
+	for _, sv := range stored {
 		var ls []ssa.Value
-		phiLeaves(st.Val, map[ssa.Value]bool{}, &ls)
+		phiLeaves(sv, map[ssa.Value]bool{}, &ls)
 		for _, l := range ls {
 			n++
 			if fieldOfLoad(l) == ids {
@@ -501,4 +555,27 @@ func c09r8(c *Ctx) {
 		c.Check("preSign fails when ValidateCSR fails", v.Pos(), okv, "a CSR whose identities do not match the caller's is accepted")
 	}
 	c.Floor(5)
+}
+
+
+type helperCall struct {
+	site   ssa.CallInstruction
+	callee *ssa.Function
+}
+
+// helperCalls: static calls from fn to functions of the same package (one level).
+func helperCalls(fn *ssa.Function) []helperCall {
+	var out []helperCall
+	eachInstr(fn, func(ins ssa.Instruction) {
+		ci, ok := ins.(ssa.CallInstruction)
+		if !ok {
+			return
+		}
+		callee := ci.Common().StaticCallee()
+		if callee == nil || callee.Blocks == nil || callee == fn || funcPkgPath(callee) != funcPkgPath(fn) {
+			return
+		}
+		out = append(out, helperCall{ci, callee})
+	})
+	return out
 }
